@@ -39,6 +39,23 @@ func init() {
 		}
 		return res
 	}
+	replayExtra["multipart-history"] = func(f []string) string {
+		res := ""
+		for _, st := range f[1:] {
+			var dc int
+			hx := ""
+			fmt.Sscanf(strings.Replace(st, ":", " ", 1), "%d %s", &dc, &hx)
+			raw, _ := hex.DecodeString(hx)
+			parts, err := pdu.ComposeMultipartShortMessage(string(raw), coding.DataCoding(dc), 0x1234)
+			res += fmt.Sprintf("data_coding=%d text=%q err=%v:", dc, raw, err)
+			for _, p := range parts {
+				d, _, _ := implDecode(coding.DataCoding(dc), p.Message)
+				res += fmt.Sprintf(" [%x -> %q]", p.Message, d)
+			}
+			res += "; "
+		}
+		return res
+	}
 	replayExtra["compose-history"] = func(f []string) string {
 		var m pdu.ShortMessage
 		res := ""
@@ -325,6 +342,41 @@ func corrC09(r *Run) {
 	for _, s := range []string{"abcdefg\r", "Ā", "€日", " ", "ab\r", "ab\rc", "\r", "abcdefgh\r", "1234567\r12345678901234\r",
 		"ְ", "АЀ", "日本©", "가¢", "", "@", "€", "abcdef€", "abcde€", "\x00abc", "\U0001F48A"} {
 		emit(s, "corpus")
+	}
+	// supplementary-plane runes inside otherwise single-coding texts: right after a BMP rune r of each repertoire a rune
+	// k*0x10000 + low16(r') with r' of the same repertoire (aliases of the low 16 bits), and arbitrary runes above U+FFFF
+	for _, t := range []string{"A\U00010041", "ok \U00010020", "Ж\U00010416", "日\U000265E5", "\U00010041A", "é\U000100E9x"} {
+		emit(t, "corpus: supplementary rune aliasing a BMP rune")
+	}
+	nAlias := r.N(12, 300)
+	for _, p := range pools {
+		var bmp []rune
+		for _, x := range p.good {
+			if x <= 0xFFFF {
+				bmp = append(bmp, x)
+			}
+		}
+		if len(bmp) == 0 {
+			continue
+		}
+		for i := 0; i < nAlias; i++ {
+			ln := 1 + r.Rng.Intn(16)
+			rs := make([]rune, 0, ln+2)
+			for k := 0; k < ln; k++ {
+				rs = append(rs, bmp[r.Rng.Intn(len(bmp))])
+			}
+			j := r.Rng.Intn(len(rs))
+			low := rs[j] & 0xFFFF
+			if i%3 == 1 {
+				low = bmp[r.Rng.Intn(len(bmp))] & 0xFFFF // another rune of the same repertoire (same span of the table, usually)
+			}
+			x := rune(1+r.Rng.Intn(16))<<16 | low
+			if i%4 == 3 {
+				x = 0x10000 + rune(r.Rng.Intn(0x100000)) // any supplementary rune
+			}
+			rs = append(rs[:j+1], append([]rune{x}, rs[j+1:]...)...)
+			emit(string(rs), labelName(p.dc)+" text with a supplementary-plane rune after a BMP rune")
+		}
 	}
 	// histories on one reused ShortMessage: corpus first (a non-zero data_coding, then GSM 7-bit text), then random
 	for _, h := range [][]string{{"Привет", "hello"}, {"\U0001F48A take two", "ok, thanks"}, {"안녕", "ΨΠΦ", "日本に行きたい。", "bye"},
